@@ -185,3 +185,49 @@ def unroll_constant_loops(fn_node, max_iter=6):
             return fn_node, 0
     ast.fix_missing_locations(fn)
     return fn, nloops
+
+
+def inline_constant_helpers(fn_node):
+    """a copy of the function in which (a) calls `helper(<int literals>)` of nested one-expression helpers
+    (`def moment(j, k): return integrate(lambda t: t[:, j] ** 2 + t[:, k] ** 2)`) are replaced by the helper's returned
+    expression with the parameters substituted, and (b) tuple assignments `a, b, c = e1, e2, e3` at the top level are split
+    into single assignments.  A normal form for rules that read `name = integrate(lambda ...)` statements."""
+    import copy
+    fn = copy.deepcopy(fn_node)
+    helpers = {}
+    for s in fn.body:
+        if isinstance(s, ast.FunctionDef) and not s.args.vararg and not s.args.kwarg and not s.args.kwonlyargs and not s.args.defaults:
+            body = [x for x in s.body if not (isinstance(x, ast.Expr) and isinstance(x.value, ast.Constant))]
+            if len(body) == 1 and isinstance(body[0], ast.Return) and body[0].value is not None:
+                helpers[s.name] = ([a.arg for a in s.args.args], body[0].value)
+
+    class _Inl(ast.NodeTransformer):
+        def visit_Call(self, n):
+            self.generic_visit(n)
+            if isinstance(n.func, ast.Name) and n.func.id in helpers and not n.keywords:
+                params, expr = helpers[n.func.id]
+                vals = [_fold_int(a, {}) for a in n.args]
+                if len(vals) == len(params) and all(v is not None for v in vals):
+                    e2 = copy.deepcopy(expr)
+                    e2 = _Subst(dict(zip(params, vals)), {}).visit(e2)
+                    return ast.copy_location(e2, n)
+            return n
+    out = []
+    changed = False
+    for s in fn.body:
+        if isinstance(s, ast.FunctionDef) and s.name in helpers:
+            out.append(s)
+            continue
+        s2 = _Inl().visit(s)
+        if isinstance(s2, ast.Assign) and len(s2.targets) == 1 and isinstance(s2.targets[0], ast.Tuple) and isinstance(s2.value, ast.Tuple) \
+                and len(s2.targets[0].elts) == len(s2.value.elts) and all(isinstance(t, ast.Name) for t in s2.targets[0].elts):
+            names = {t.id for t in s2.targets[0].elts}
+            if not any(isinstance(x, ast.Name) and x.id in names for v in s2.value.elts for x in ast.walk(v)):       # no swap semantics
+                for t, v in zip(s2.targets[0].elts, s2.value.elts):
+                    out.append(ast.copy_location(ast.Assign([ast.Name(t.id, ast.Store())], v), s2))
+                changed = True
+                continue
+        out.append(s2)
+    fn.body = out
+    ast.fix_missing_locations(fn)
+    return fn
